@@ -49,7 +49,7 @@ CLAIMED = {
              ref="DESIGN.md 4 C03"),
  "C16": dict(technique="Kani memory-safety obligations (pointer/bounds/memcpy-region checks) inside contract harnesses that hand each byte-slice consumer a buffer of exactly the contract size; aligned-access intrinsics stubbed as must-be-unreachable",
              text="Reads stay inside the input and writes inside the output for vector byte load/store on every backend (exact 16/32/64-byte buffers), ChaCha apply shapes, hash update/finalize shapes, BLAKE/JH compression on exact-size blocks (JH f8 takes a raw pointer), Threefish block I/O; results are functions of slice contents only (CBMC objects have no address). No aligned-access intrinsic is reachable from these entry points.",
-             note="Alignment FAULTS are not decidable by either verifier (DESIGN.md 4 C16): the claim is the sufficient reachability contract plus the bounds proofs; the guard-page native replay described in the design is not built. Slice APIs are bounded in per-call length.",
+             note="Alignment FAULTS are not decidable by either verifier (DESIGN.md 4 C16): the claim is the sufficient reachability contract plus the bounds proofs; a native guard-page/misalignment run (native/refcheck align family) supplies the failing input for a violated obligation. Slice APIs are bounded in per-call length.",
              ref="DESIGN.md 4 C16"),
  "C04": dict(technique="Kani contracts on the mode of operation: finalize/update/default/reset from an arbitrary state with put_block as uninterpreted function + call log",
              text="Compression function == BLAKE specification (G, sigma schedule, constants, counter words, 14/16 rounds, feed-forward) on every backend; padding (0x80, zeros, 0x01/0x00 marker, 0x81 when they coincide, 64/128-bit big-endian length), one-vs-two final blocks, bit counter excluding padding and 0 for a padding-only block, chaining, IVs and truncated big-endian output are proved for a symbolic chaining value and bit counter, so for every message length.",
@@ -116,7 +116,7 @@ def main():
         "engines": [
             {"name": "kani", "path": "/verif/lib/kanirun.py", "serves_properties": sorted(CLAIMED), "kind_free_text": "Kani 0.68 contracts/harnesses on the real crates, CBMC 6.11 + CaDiCaL"},
             {"name": "verus", "path": "/verif/lib/verusrun.py", "serves_properties": ["C02", "C06", "C08", "C09", "C10", "C11", "C17"], "kind_free_text": "Verus 0.2026.09.13 + Z3: loop invariants on code extracted mechanically from rustc's expansion (lib/verus_extract.py), and induction lemmas over the Kani contracts"},
-            {"name": "refcheck", "path": "/verif/lib/refcheck.py", "serves_properties": ["C01", "C02", "C04", "C05", "C06", "C07", "C08", "C09", "C10", "C11", "C14", "C17"], "kind_free_text": "native search for a concrete failing input behind a violated obligation (real crates vs references assembled from spec/*.rs); replay support only, never counted as an obligation"},
+            {"name": "refcheck", "path": "/verif/lib/refcheck.py", "serves_properties": ["C01", "C02", "C04", "C05", "C06", "C07", "C08", "C09", "C10", "C11", "C14", "C16", "C17"], "kind_free_text": "native search for a concrete failing input behind a violated obligation (real crates vs references assembled from spec/*.rs); replay support only, never counted as an obligation"},
         ],
         "checks": checks,
         "not_applicable": na,
